@@ -7,8 +7,9 @@ import sys
 
 pid, variant, tag, needs = sys.argv[1], sys.argv[2], sys.argv[3], sys.argv[4]
 desc = sys.argv[5] if len(sys.argv) > 5 else ""
-src = "/tmp/mut/%s/OUT" % pid
-suffix = "" if variant == "1" else variant
+root = os.environ.get("MUTROOT", "/tmp/mut")
+src = "%s/%s/OUT" % (root, pid)
+suffix = "" if (variant == "1" and not os.path.exists(os.path.join(src, "patch1.diff"))) else variant
 dst = "/verif/seeded/%s-%s" % (pid, tag)
 os.makedirs(dst, exist_ok=True)
 shutil.copy(os.path.join(src, "patch%s.diff" % suffix), os.path.join(dst, "patch.diff"))
